@@ -3339,3 +3339,164 @@ func ruleProbeResultChecked(r *Run, rule string) {
 		}
 	}
 }
+
+// rulePendingRangeClosed (R05.17): a line fetch in progress is registered as the address
+// interval [start, end). The test "is this address being fetched already?" must include the
+// start itself (start <= addr): the access that registered the fetch asked for exactly that
+// address, and a second access to it that is not recognised fetches the line a second time —
+// two copies of one line, of which a store updates one and the write-back of the other wins.
+func rulePendingRangeClosed(r *Run, rule string) {
+	w := r.W
+	for _, v := range variants(w) {
+		if v.pkg == nil || !v.pipelined() {
+			continue
+		}
+		info := v.info
+		for _, f := range v.pkg.Syntax {
+			for _, d := range f.Decls {
+				fd, ok := d.(*ast.FuncDecl)
+				if !ok || fd.Body == nil {
+					continue
+				}
+				n := 0
+				ast.Inspect(fd.Body, func(m ast.Node) bool {
+					rs, ok := m.(*ast.RangeStmt)
+					if !ok || rs.Value == nil {
+						return true
+					}
+					// elements are [2]int32 intervals
+					at, ok := info.TypeOf(rs.Value).Underlying().(*types.Array)
+					if !ok || at.Len() != 2 || typeName(at.Elem()) != "int32" {
+						return true
+					}
+					vid, ok := rs.Value.(*ast.Ident)
+					if !ok {
+						return true
+					}
+					vobj := info.Defs[vid]
+					endOf := func(e ast.Expr) (int64, bool) {
+						ix, ok := ast.Unparen(e).(*ast.IndexExpr)
+						if !ok {
+							return 0, false
+						}
+						if id, ok := ast.Unparen(ix.X).(*ast.Ident); !ok || info.Uses[id] != vobj {
+							return 0, false
+						}
+						return constInt64(info.Types[ix.Index])
+					}
+					ast.Inspect(rs.Body, func(k ast.Node) bool {
+						is, ok := k.(*ast.IfStmt)
+						if !ok {
+							return true
+						}
+						var lowOK, hasLow, hasHigh bool
+						for _, c := range conjuncts(is.Cond) {
+							b, ok := c.(*ast.BinaryExpr)
+							if !ok {
+								continue
+							}
+							if i, ok := endOf(b.X); ok && i == 0 { // start OP addr
+								hasLow = true
+								lowOK = b.Op == token.LEQ
+							}
+							if i, ok := endOf(b.Y); ok && i == 0 { // addr OP start
+								hasLow = true
+								lowOK = b.Op == token.GEQ
+							}
+							if i, ok := endOf(b.X); ok && i == 1 {
+								hasHigh = true
+							}
+							if i, ok := endOf(b.Y); ok && i == 1 {
+								hasHigh = true
+							}
+						}
+						if hasLow && hasHigh {
+							n++
+							r.check(lowOK, rule, fmt.Sprintf("%s.%s:pending-interval#%d", v.rel, declName(fd), n), is.Pos(), "the membership test of a pending fetch interval includes its start address (start <= addr)")
+						}
+						return true
+					})
+					return true
+				})
+			}
+		}
+	}
+}
+
+// ruleBusyFlagLoweredAfterRun (R09.10): an execute unit whose emptiness predicate is the
+// negation of a busy flag lowers that flag only once the instruction has been executed: every
+// `flag = false` outside the unit's flush stands, in its function, after the call that runs the
+// instruction (InstructionRunner.Run). A unit that reports empty while a load still waits for
+// memory lets the run end before the loaded value is written.
+func ruleBusyFlagLoweredAfterRun(r *Run, rule string) {
+	w := r.W
+	for _, v := range variants(w) {
+		if v.pkg == nil || !v.pipelined() {
+			continue
+		}
+		seen := map[*types.Named]bool{}
+		for _, f := range v.fields {
+			if !f.isUnit || f.unitT == nil || !f.roles["exec"] || seen[f.unitT] {
+				continue
+			}
+			seen[f.unitT] = true
+			ie := hasDeclMethod(f.unitT, "isEmpty")
+			if ie == nil {
+				continue
+			}
+			ifd, ipk := w.FuncDecl(ie)
+			if ifd == nil || ifd.Body == nil || len(ifd.Body.List) != 1 {
+				continue
+			}
+			rs, ok := ifd.Body.List[0].(*ast.ReturnStmt)
+			if !ok || len(rs.Results) != 1 {
+				continue
+			}
+			u, ok := ast.Unparen(rs.Results[0]).(*ast.UnaryExpr)
+			if !ok || u.Op != token.NOT {
+				continue
+			}
+			sel, ok := ast.Unparen(u.X).(*ast.SelectorExpr)
+			if !ok || ipk.TypesInfo.Selections[sel] == nil {
+				continue
+			}
+			flag := ipk.TypesInfo.Selections[sel].Obj()
+			n := 0
+			for i := 0; i < f.unitT.NumMethods(); i++ {
+				m := f.unitT.Method(i)
+				mfd, mpk := w.FuncDecl(m)
+				if mfd == nil || mfd.Body == nil || strings.EqualFold(m.Name(), "flush") {
+					continue
+				}
+				info := mpk.TypesInfo
+				var runPos token.Pos
+				ast.Inspect(mfd.Body, func(k ast.Node) bool {
+					if c, ok := k.(*ast.CallExpr); ok {
+						if fn, ok := typeutil.Callee(info, c).(*types.Func); ok && fn.Name() == "Run" && fn.Pkg() != nil && fn.Pkg().Path() == modPath+"/risc" {
+							if runPos == 0 || c.Pos() < runPos {
+								runPos = c.Pos()
+							}
+						}
+					}
+					return true
+				})
+				ast.Inspect(mfd.Body, func(k ast.Node) bool {
+					as, ok := k.(*ast.AssignStmt)
+					if !ok || len(as.Lhs) != 1 || len(as.Rhs) != 1 {
+						return true
+					}
+					ls, ok := ast.Unparen(as.Lhs[0]).(*ast.SelectorExpr)
+					if !ok || info.Selections[ls] == nil || info.Selections[ls].Obj() != flag {
+						return true
+					}
+					if tv := info.Types[as.Rhs[0]]; tv.Value == nil || tv.Value.String() != "false" {
+						return true
+					}
+					n++
+					r.check(runPos != 0 && as.Pos() > runPos, rule, fmt.Sprintf("%s.(%s).%s:busy-flag-lowered#%d", v.rel, f.unitT.Obj().Name(), m.Name(), n), as.Pos(), "the busy flag %s, whose negation is the unit's emptiness, is lowered after the instruction has been run", flag.Name())
+					return true
+				})
+			}
+		}
+	}
+}
